@@ -6,6 +6,10 @@ props = [json.loads(l) for l in open(os.path.join(VERIF, 'properties.jsonl'))]
 ids = [p['id'] for p in props]
 
 CHECKS = {
+ 'C14': dict(engine='E3 spec', category='model_checking', design_ref='3 C14',
+   technique='explicit-state model checking of a TLA+ pipeline model (TLC) with every model behaviour replayed on the implementation, plus BFS over listener-registration histories on real EventManager objects',
+   text='tla/Events.tla models the call pipeline with nine failure points (none, malformed bytes, bad envelope, unknown method, invalid argument, raising method_call listener, raising function, raising method_return_object listener, unserialisable return) and two exception kinds; TLC explores all 120 states and checks the property (context created first / closed last once, function after method_call at most once, return vs exception events exclusive and ordered) as invariants. Every one of the 12 terminal behaviours is replayed for seven protocol families x {ServerBase, WSGI} x raising-listener level {application, service, method}: the failure is injected at the modelled stage and recording listeners on all three managers must reproduce the model trace (application level) and its projection (service, method level). Registration semantics: breadth-first search over all add/del/del-all histories (3 listeners, 2 events, depth 4 quick / 5 thorough) against an insertion-ordered duplicate-free reference, plus service-listener inheritance.',
+   note='Failure points a family cannot realise are skipped and listed in the evidence; protocol/transport-level events are not constrained.'),
  'C17': dict(engine='E1 enum', category='exploration', design_ref='3 C17',
    technique='exhaustive attack kind x injection position x protocol x transport with inotify / socket canaries, parser-option monitor and child-process resource bounds',
    text='External general entities over file/http/ftp, external parameter entities, internal entities, XInclude, processing instructions and comments injected at every leaf text and every attribute of a valid request, and three external-DTD doctypes, for XmlDocument, Soap11 and Soap12 with default arguments through ServerBase and WSGI. Armed monitors (self-tested against a deliberately unsafe parser at the start of every shard): inotify open/access watches on the canary files, a listening canary socket, canary content in captured arguments / response, and the keyword arguments of every XMLParser constructed. Entity-chain bombs for a (fan-out, depth) grid in element text and in attribute values, quadratic blow-up, deep nesting and huge attribute counts run one per child process under 10 s / 256 MiB bounds and must end in a Client fault or be accepted unexpanded.',
